@@ -724,7 +724,7 @@ def run(ctx):
         ctx.proof_failures.append((gf, "translator", m))
     okf, _, _ = coq_build(ctx, ["Findings/C15_len_after_consumption.vo"]) if not msgs else (True, [], "")
     if not okf:
-        ctx.note("Findings/C15_len_after_consumption.v no longer builds (the witness of the exact-size finding does not reproduce on this tree)")
+        ctx.note("Findings/C15_len_after_consumption.v (historical record of the fixed finding F24) did not build")
     proved = (not msgs) and prove(ctx, "C15", extra_targets=["Model/GridCheck.vo", "Props/C15_pins.vo", "Model/C15_Bridge.vo"])
     tier = "thorough" if not quick else "quick"
     obs = run_harness(ctx, binp, ["c15", ctx.seed, 2 if quick else 10, "trees", tier], timeout=900)
@@ -818,8 +818,8 @@ def run(ctx):
     ctx.cov["clauses"] = {
         "2-D grid: same points, same positions, any split tree": "proved (any carrier => bit-exact) + validated on the real split_at",
         "1-D range: any split tree": "proved over the reals; float clause proved_partial (Flocq, FLX-53 rounding of every operation: ((1+4u)^(depth+1)-1) of the range scale; guard: no overflow/underflow) and checked against the harness",
-        "len contract of reachable producers": "proved for the length AT CREATION (all that bridge / enumerate / collect use); after partial consumption len() is wrong on the unchanged tree: "
-                                               "finding exact_size_after_consumption (enumerate().rev() panics), Findings/C15_len_after_consumption.v, patch work/fixes/C15-exact-size-len.diff",
+        "len contract of reachable producers": "proved at creation for every reachable producer (C15_len) and AT ANY TIME for the leaf iterators (C15_exact_size: after every schedule of "
+                                               "next/next_back len() is the remaining count; Zip::next_back never reaches unreachable); F24 fixed in /repo a05fe3f, enumerate().rev() exercised every run",
         "enumerate / indexed collect deliver point k at position k": "proved (model of rayon's EnumerateProducer / CollectConsumer)",
         "reductions (sums) independent of the tree": "proved in any monoid (R, C), also under enumerate(); tied to the code by the generated call-site table (counts, hom_rate, simpson, "
                                                      "simpson2d: every parallel site classified and pinned; simpson's parallel branch proved to sum the same nodes through the same closures as its "
